@@ -91,7 +91,8 @@ def run_cli(argv, stdin_bytes=b'', files=None, plans=None, stdin_plan=None, stdo
             if code is None:
                 res.exit = 0
             elif isinstance(code, int):
-                res.exit = code
+                # what the parent of a real process sees: the low eight bits (sys.exit(256) is "success")
+                res.exit = code & 0xFF
             else:
                 stderr.write(str(code) + '\n')
                 res.exit = 1
